@@ -15,6 +15,7 @@ type Attempt struct {
 	Order     []int64 // evictions in pop order
 	QOrder    []int64 // the candidates in the pop order of the victims queue
 	PAlloc    []int64 // what the preemptor's job held at the vote
+	Tier      int64   // 1-based index of the last tier the real vote walk of this attempt reached
 	Pipelined int64   // node the preemptor was pipelined on by this attempt, 0 = none
 	Preemptor int64
 	Action    int64 // 1 preempt, 2 reclaim
@@ -102,7 +103,7 @@ func (w *World) Reconstruct() []Choice {
 				att = nil
 				continue
 			}
-			att = &Attempt{Node: e.Node, Cands: e.Cands, CandSt: e.CandSt, QOrder: e.QOrder, PAlloc: e.PAlloc, Preemptor: e.Task, Action: act, Obs: e.obs}
+			att = &Attempt{Node: e.Node, Cands: e.Cands, CandSt: e.CandSt, QOrder: e.QOrder, PAlloc: e.PAlloc, Tier: e.Reached + 1, Preemptor: e.Task, Action: act, Obs: e.obs}
 		case 0:
 			if e.Status == sched.SReleasing {
 				if act == 3 && att == nil {
@@ -187,7 +188,7 @@ func topoAttempt(dry []TraceEv, node int64, cur *TaskGroup) *Attempt {
 	}
 	for _, d := range dry {
 		if d.Node == node && d.Task == cur.Task {
-			return &Attempt{Node: node, Cands: d.Cands, CandSt: d.CandSt, QOrder: d.QOrder, PAlloc: d.PAlloc, Preemptor: d.Task, Action: 1, Obs: d.obs, Topo: true}
+			return &Attempt{Node: node, Cands: d.Cands, CandSt: d.CandSt, QOrder: d.QOrder, PAlloc: d.PAlloc, Tier: d.Reached + 1, Preemptor: d.Task, Action: 1, Obs: d.obs, Topo: true}
 		}
 	}
 	panic(fmt.Sprintf("topology-aware preempt acts on n%d without a dry run there", node))
